@@ -87,7 +87,7 @@ func rootsOf(t *flow.Term, out map[string]string) {
 		if i := strings.Index(name, "#"); i >= 0 {
 			name = name[:i]
 		}
-		if freshResults[name] {
+		if freshResults[name] || strings.HasPrefix(name, "le.bytes") {
 			out[rootFresh+":"+name] = rootFresh
 		} else {
 			out[rootUnknown+":"+truncate(t.String(), 80)] = rootUnknown
